@@ -140,6 +140,21 @@ def request(case):
         if op == 'abs' and len(a.get('numer', [])) == 1:
             return None                                   # vector norm (C16)
         return ['c04', op, opd_sx(a), blank_sx(case)]
+    if op == 'pow':
+        # class / kind / shape / rejection of Scalar ** x (values: oracle only); other bases: C16; units: C12
+        if a['src'] != 'qube' or a['cls'] not in ('Scalar', 'Boolean') or a.get('units') is not None:
+            return None
+        return ['c04', 'pow', opd_sx(a), opd_sx(b), blank_sx(case)]
+    if op == 'arctan2':
+        if a['src'] != 'qube' or a['cls'] not in ('Scalar', 'Boolean'):
+            return None
+        return ['c04', 'arctan2', opd_sx(a), opd_sx(b), blank_sx(case)]
+    if op in R.MATHFN:
+        if a['src'] != 'qube' or a['cls'] not in ('Scalar', 'Boolean'):
+            return None
+        if op == 'sign' and (a['cls'] == 'Boolean' or a.get('denom')):
+            return None
+        return ['c04', 'math', op, opd_sx(a), blank_sx(case)]
     if op in MODELLED_BIN:
         if a['src'] != 'qube' and b['src'] != 'qube':
             return None
